@@ -43,6 +43,9 @@ def check(run):
             run, "C12.1.totality", F, cfg, a7_cones.REQUEST_ROOTS, a7_common.rows(), a7_common.ALL,
             floor=15, label="request-construction"))
         run.guard("C12.2.scheme-table", cfg, lambda: rule_scheme(run, F, cfg))
+        from . import C03 as _C03co
+        bco = run.borrow("C03", only=r"conjuncts|cpt-table", why="the request type the rules see is the one Request::new derived (websocket for ws/wss URLs): check_options reads request.request_type itself, not a copy taken before that derivation")
+        run.guard("C12.via.C03.3.check_options-table", cfg, lambda: _C03co.rule_check_options(bco, F, cfg))
         run.guard("C12.3.party", cfg, lambda: rule_party(run, F, cfg))
         run.guard("C12.4.single-construction", cfg, lambda: rule_single(run, F, cfg))
         run.guard("C12.5.url-scanner-tables", cfg, lambda: rule_scanner(run, F, cfg))
@@ -50,6 +53,7 @@ def check(run):
         run.guard("C12.5.url-scanner-tables", cfg + "/authority-ends", lambda: rule_authority_ends(run, F, cfg))
         run.guard("C12.5.url-scanner-tables", cfg + "/host-normalisation", lambda: rule_host_normalised(run, F, cfg))
         run.guard("C12.6.host-span", cfg, lambda: rule_host_span(run, F, cfg))
+        run.guard("C12.6.host-span", cfg + "/userinfo", lambda: rule_userinfo_skipped(run, F, cfg))
         run.guard("C12.7.whole-url", cfg, lambda: rule_whole_url(run, F, cfg))
         from . import C03 as _C03
         b3 = run.borrow("C03", why="only requests with is_supported are eligible for matching")
@@ -468,3 +472,44 @@ def rule_whole_url(run, F, cfg):
     run.ob("C12.7.whole-url", "request-keeps-the-url", okr,
            f"Request.url / url_lower_cased are the `url` argument (and its lower-cased copy), original_url the caller's string ({vals})",
            site=r.loc(0), config=cfg)
+
+
+
+def rule_userinfo_skipped(run, F, cfg):
+    """parse_userinfo hands the rest of the input on to the host parser. Whenever an `@` was found in the authority, that
+    rest starts BEHIND the `@` (the cursor remembered with `last_at`), also when the userinfo is empty
+    (`https://@example.com/`): only without any `@` is the rest the untouched input. Otherwise the hostname begins with
+    `@` (or with the credentials) and every host comparison -- party, `||host`, `$domain` -- is off."""
+    from analysis.guards import conditional_defs
+    from analysis.idioms import split_args
+    f = F.fn("url_parser::parser::Parser::parse_userinfo")
+    run.touched(f)
+    n, bad = 0, []
+    # the switch on `last_at`: its Some arm is "an `@` was found"
+    some_arms = []
+    for b in sorted(f.normal_blocks()):
+        t = f.blocks[b]["t"]
+        if t["k"] == "switch" and re.match(r"^discr\(φ\{std::option::Option::None\{\} \| std::option::Option::Some\{0: \(", f.expr_operand(t["discr"])):
+            some_arms += [tg for v, tg in t["targets"] if v == 1]
+            if [v for v, _ in t["targets"]] == [0]:
+                some_arms.append(t["otherwise"])
+    after_at = set()
+    for a in some_arms:
+        after_at |= f.reachable_from(a) | {a}
+    for kind, b, val, conds, _ in conditional_defs(f, 0):
+        m = re.match(r"^std::result::Result::Ok\{0: \((.*)\)\}$", val)
+        if kind != "assign" or not m:
+            continue
+        parts = split_args(m.group(1))
+        if len(parts) != 2:
+            bad.append((f.loc(b), val[:80]))
+            continue
+        n += 1
+        if b in after_at and parts[1].strip() == "arg:input":
+            bad.append((f.loc(b), "the untouched input is returned on a path on which an `@` was found"))
+    if not some_arms:
+        bad.append((f.loc(0), "no test of the remembered `@` position found"))
+    run.floor("C12.6.host-span", f"Ok results of parse_userinfo [{cfg}]", n, 2)
+    run.ob("C12.6.host-span", "rest-starts-behind-the-at-sign", not bad,
+           "every Ok result of parse_userinfo reached with an `@` in the authority continues behind that `@` (empty userinfo "
+           f"included); deviations: {bad[:2]}", site=bad[0][0] if bad else f.loc(0), config=cfg)
